@@ -15,9 +15,9 @@
 // No wall-clock value decides a verdict. Watchdogs only yield c.Inconclusive,
 // except the "stable block" decision, which is a state-did-not-change decision:
 // every live goroutine of the case is inside an acquire call, nobody holds a
-// permit, and nothing (logical clock, counters) moved between consecutive
-// samples - then no release can ever happen although fewer than n units are out:
-// the capacity is provably lost.
+// permit, every harness goroutine is parked, and nothing (logical clock,
+// counters) moved between consecutive samples - then no release can ever happen
+// although fewer than n units are out: the capacity is provably lost.
 package c05
 
 import (
@@ -437,21 +437,29 @@ func closeWhenDone(wg *sync.WaitGroup) chan struct{} {
 func TestVerifC05(t *testing.T) {
 	logx.Disable()
 
-	kit.Run(t, prop, "limit-seq", kit.N(300, 6000), limitSeqCase)
-	kit.Run(t, prop, "limit-conc", kit.N(4000, 100000), limitConcCase)
-	kit.Run(t, prop, "limit-overreturn", kit.N(400, 8000), limitOverReturnCase)
-	kit.Run(t, prop, "tlimit-seq", kit.N(100, 2000), tlimitSeqCase)
-	kit.Run(t, prop, "tlimit-conc", kit.N(2400, 60000), tlimitConcCase)
-	kit.Run(t, prop, "pool-conc", kit.N(3000, 72000), poolConcCase)
-	kit.Run(t, prop, "pool-age-seq", kit.N(150, 3200), poolAgeSeqCase)
-	kit.Run(t, prop, "pool-age-conc", kit.N(1200, 30000), poolAgeConcCase)
-	kit.Run(t, prop, "taskrunner", kit.N(3000, 72000), taskRunnerCase)
-	kit.Run(t, prop, "workergroup", kit.N(300, 6000), workerGroupCase)
-	kit.Run(t, prop, "mr-workers", kit.N(2400, 60000), mrCase)
-	kit.Run(t, prop, "fx-workers", kit.N(2400, 60000), fxCase)
-	kit.Run(t, prop, "maxconns-direct", kit.N(3000, 72000), maxConnsDirectCase)
-	kit.Run(t, prop, "maxconns-httptest", kit.N(500, 10000), maxConnsHTTPTestCase)
-	kit.Run(t, prop, "maxconns-restserver", kit.N(128, 2000), maxConnsRestServerCase)
+	// a replay (VERIF_ONLY) repeats the one case: schedules are not reproducible, so the
+	// witness' plan is re-run many times and the driver reports whether it hit again
+	reps := 1
+	if kit.GetEnv().Only != "" {
+		reps = 100
+	}
+	for rep := 0; rep < reps; rep++ {
+		kit.Run(t, prop, "limit-seq", kit.N(300, 6000), limitSeqCase)
+		kit.Run(t, prop, "limit-conc", kit.N(4000, 100000), limitConcCase)
+		kit.Run(t, prop, "limit-overreturn", kit.N(400, 8000), limitOverReturnCase)
+		kit.Run(t, prop, "tlimit-seq", kit.N(100, 2000), tlimitSeqCase)
+		kit.Run(t, prop, "tlimit-conc", kit.N(2400, 60000), tlimitConcCase)
+		kit.Run(t, prop, "pool-conc", kit.N(3000, 72000), poolConcCase)
+		kit.Run(t, prop, "pool-age-seq", kit.N(150, 3200), poolAgeSeqCase)
+		kit.Run(t, prop, "pool-age-conc", kit.N(1200, 30000), poolAgeConcCase)
+		kit.Run(t, prop, "taskrunner", kit.N(3000, 72000), taskRunnerCase)
+		kit.Run(t, prop, "workergroup", kit.N(300, 6000), workerGroupCase)
+		kit.Run(t, prop, "mr-workers", kit.N(2400, 60000), mrCase)
+		kit.Run(t, prop, "fx-workers", kit.N(2400, 60000), fxCase)
+		kit.Run(t, prop, "maxconns-direct", kit.N(3000, 72000), maxConnsDirectCase)
+		kit.Run(t, prop, "maxconns-httptest", kit.N(500, 10000), maxConnsHTTPTestCase)
+		kit.Run(t, prop, "maxconns-restserver", kit.N(128, 2000), maxConnsRestServerCase)
+	}
 
 	kit.End()
 }
